@@ -1,0 +1,84 @@
+//go:build verif
+
+package dnsserver
+
+import (
+	"context"
+	"net"
+	"net/http"
+	"sync"
+	"time"
+
+	"github.com/AdguardTeam/golibs/syncutil"
+	"github.com/miekg/dns"
+	"github.com/quic-go/quic-go"
+)
+
+// Verification hooks for property C06 (a message is interpreted from its own
+// bytes only).  Add-only; compiled only with the build tag "verif".
+
+// VerifC06ReadQUICMsg calls the unexported readQUICMsg of s on stream.
+func VerifC06ReadQUICMsg(
+	ctx context.Context,
+	s *ServerQUIC,
+	stream quic.Stream,
+) (m *dns.Msg, err error) {
+	return s.readQUICMsg(ctx, stream)
+}
+
+// VerifC06ServeQUICStream calls the unexported serveQUICStream of s.
+func VerifC06ServeQUICStream(
+	ctx context.Context,
+	s *ServerQUIC,
+	stream quic.Stream,
+	conn quic.Connection,
+) (err error) {
+	return s.serveQUICStream(ctx, stream, conn)
+}
+
+// VerifC06AcceptUDPMsg calls the unexported acceptUDPMsg of s on conn.
+func VerifC06AcceptUDPMsg(ctx context.Context, s *ServerDNS, conn net.PacketConn) (err error) {
+	return s.acceptUDPMsg(ctx, conn)
+}
+
+// VerifC06TCPConn is the per-connection state of the TCP accept loop.
+type VerifC06TCPConn struct {
+	wg      *sync.WaitGroup
+	writeMu *sync.Mutex
+	sema    syncutil.Semaphore
+}
+
+// VerifC06NewTCPConn returns the state serveTCPConn creates for a connection.
+func VerifC06NewTCPConn() (c *VerifC06TCPConn) {
+	return &VerifC06TCPConn{
+		wg:      &sync.WaitGroup{},
+		writeMu: &sync.Mutex{},
+		sema:    syncutil.EmptySemaphore{},
+	}
+}
+
+// Wait waits until all messages accepted on the connection have been served.
+func (c *VerifC06TCPConn) Wait() { c.wg.Wait() }
+
+// VerifC06AcceptTCPMsg calls the unexported acceptTCPMsg of s on conn.
+func VerifC06AcceptTCPMsg(
+	s *ServerDNS,
+	conn net.Conn,
+	c *VerifC06TCPConn,
+	timeout time.Duration,
+) (err error) {
+	return s.acceptTCPMsg(conn, c.wg, c.writeMu, timeout, c.sema)
+}
+
+// VerifC06HTTPHandler returns the HTTP handler of s without starting it.
+func VerifC06HTTPHandler(s *ServerHTTPS, localAddr net.Addr) (h http.Handler) {
+	return &httpHandler{srv: s, localAddr: localAddr}
+}
+
+// VerifC06ReleaseDNS releases the worker pool of a server that was never
+// started.
+func VerifC06ReleaseDNS(s *ServerDNS) { s.workerPool.Release() }
+
+// VerifC06ReleaseQUIC releases the worker pool of a server that was never
+// started.
+func VerifC06ReleaseQUIC(s *ServerQUIC) { s.pool.Release() }
